@@ -140,8 +140,19 @@ def rule_send_metric(fm, rep, rid='R2'):
     rep.ob(rid, 'send_metric/result-tells-the-truth', g, b.where(e), 'Ok(()) iff the sink accepted; Err(MetricError::from(e)) with the sink\'s own error otherwise' if g else 'the emit result is not propagated faithfully (swallowed or replaced)')
     # who may call emit on the client's sink
     others = []
+    # a function spliced into send_metric (analysed above as part of it) whose only callers in the crate are send_metric and
+    # functions spliced into it is the same door, even when it is a public method (`emit_str(&self, line)`): calling it is not
+    # a metric call, and no metric call reaches it another way
+    spliced = set(p_ for p_, _, _ in (getattr(b, 'inlined', None) or [])) | {b.path}
+    same_door = set()
+    for p_ in spliced:
+        callers_ = set(y.path for y in cad.all_bodies for _, t_ in y.calls() if t_.get('resolved') == p_)
+        if p_ != b.path and callers_ and callers_ <= spliced:
+            same_door.add(p_)
     for x in cad.all_bodies:
         if x.path == b.path or not (x.file.endswith('client.rs') or x.file.endswith('builder.rs') or x.file.endswith('types.rs')):
+            continue
+        if x.path in same_door:
             continue
         for bi, t in x.calls():
             if callee_is(t, SINK_TRAIT + '::emit'):
@@ -1292,6 +1303,15 @@ def _emptiness_predicate(cad, pb):
     """pb: fn(&MetricValue) -> bool.  True for every packed variant exactly when its list is empty?"""
     T = Terms(pb)
     if pb.blocks[0]['term']['k'] != 'switch':
+        # `self.count() == 0` (the counting function is checked by the caller: it must count every packed variant)
+        cnt = names(cad).mv_count
+        rts = ret_terms(T, [0])
+        if cnt is not None and len(rts) == 1:
+            r = list(rts)[0]
+            if r[0] == 'bin' and r[1] == 'Eq':
+                a, c = (r[2], r[3]) if r[3][0] == 'const' else (r[3], r[2])
+                if c[0] == 'const' and str(c[2]) == '0' and a[0] == 'call' and a[1] == strip_generics(cnt.path) and len(a[2]) == 1 and peel(a[2][0]) == ('param', 1):
+                    return True, ''
         return False, 'the emptiness predicate is not a match on the value'
     dt, edges = T.switch_facts(0)
     seen = {}
